@@ -208,7 +208,7 @@ def r1_split_or_guard(sl):
     return sl
 
 
-def inject(sl, ret=None, contract='', entry='', loops=(), closures=(), after=(), loop_entry=(), loop_end=(), before=(), rename=None, make_pub=False):
+def inject(sl, ret=None, contract='', entry='', loops=(), closures=(), after=(), loop_entry=(), loop_end=(), before=(), rename=None, make_pub=False, loop_over=()):
     """Splice annotations into a function slice; executable tokens are untouched.
     ret: name for the return value; contract: requires/ensures/decreases text; entry: ghost text at body start;
     loops: (ordinal, iterator name, invariant text); closures: (exact closure text, annotated replacement);
@@ -276,6 +276,14 @@ def inject(sl, ret=None, contract='', entry='', loops=(), closures=(), after=(),
     after = [(subst(a), subst(b)) for (a, b) in after]
     before = [(subst(a), subst(b)) for (a, b) in before]
     edits = []
+    # an invariant belongs to the loop over a particular collection (`&self.0`, `&other.0`, ...): when the n-th loop runs over
+    # something else (nest interchanged, loop replaced), the annotation has lost its anchor
+    for (ordinal, over) in loop_over:
+        if ordinal >= len(pos):
+            raise AnchorLost('loop %d of %s' % (ordinal, sl.what))
+        got = re.sub(r'\s+', '', pos[ordinal].group(2))
+        if not re.fullmatch(subst(over), got):
+            raise AnchorLost('loop %d of %s runs over `%s`, the invariant was written for `%s`' % (ordinal, sl.what, got, subst(over)))
     for (ordinal, itname, inv) in loops:
         if ordinal >= len(pos):
             raise AnchorLost('loop %d of %s' % (ordinal, sl.what))
